@@ -64,10 +64,10 @@ def _run_one(o, excludes, T=None):
     return r
 
 
-def _replay(o, args, timeout=180):
+def _replay(o, args, timeout=180, no_known=False):
     from chx.run_one import replay
 
-    return replay(o, args, timeout)
+    return replay(o, args, timeout, no_known)
 
 
 def check_covers(mods):
@@ -133,7 +133,7 @@ def main(argv=None):
     findings = [k for k in known.get("findings", []) if k["property"] == prop]
 
     def excludes_for(o):
-        return [k["region"] for k in findings if fnmatch.fnmatch(o.oid, k["obligation"]) and k.get("region")]
+        return [k["region"] for k in findings if k.get("region") and fnmatch.fnmatch(o.oid, k.get("obligation", ""))]
 
     with ThreadPoolExecutor(max_workers=a.jobs) as ex:
         futs = [(o, ex.submit(_run_one, o, excludes_for(o), o.T * a.scale if a.scale != 1 else None)) for o in obs]
@@ -146,7 +146,7 @@ def main(argv=None):
         targets = [o for o in obligations(prop, "thorough") if fnmatch.fnmatch(o.oid, k["witness_obligation"])]
         if not targets or (a.only and targets[0].oid not in ids_run):
             continue
-        r = _replay(targets[0], k["witness"])
+        r = _replay(targets[0], k["witness"], no_known=True)
         still = bool(r.get("diag"))
         known_records.append({"id": k["id"], "witness": k["witness"], "still_fails": still, "diag": r.get("diag", "")[:300]})
         if still:
